@@ -432,6 +432,23 @@ theorem mem_takeLoop {c : Cred} {lim : Nat} : ∀ {ms : List Member} {i : Nat}, 
     · obtain ⟨l', h1, h2⟩ := mem_takeLoop h
       exact ⟨l', List.mem_cons_of_mem _ h1, h2⟩
 
+theorem mem_takeLoopPre {c : Cred} {lim : Nat} : ∀ {ms : List Member} {i : Nat}, c ∈ takeLoopPre lim i ms → ∃ l, some l ∈ ms ∧ c ∈ l
+  | [], i, h => by simp [takeLoopPre] at h
+  | some l :: ms, i, h => by
+    unfold takeLoopPre at h
+    split at h
+    · simp at h
+    · rcases List.mem_append.1 h with h | h
+      · exact ⟨l, List.mem_cons_self, h⟩
+      · obtain ⟨l', h1, h2⟩ := mem_takeLoopPre h
+        exact ⟨l', List.mem_cons_of_mem _ h1, h2⟩
+  | none :: ms, i, h => by
+    unfold takeLoopPre at h
+    split at h
+    · simp at h
+    · obtain ⟨l', h1, h2⟩ := mem_takeLoopPre h
+      exact ⟨l', List.mem_cons_of_mem _ h1, h2⟩
+
 theorem mem_apply {cfg : Cfg} {list : List Member} {rule : String} {count min max : Option Nat} {l : List Cred} {c : Cred}
     (h : apply cfg list rule count min max = .ok l) (hc : c ∈ l) : ∃ l', some l' ∈ list ∧ c ∈ l' := by
   unfold apply at h
@@ -445,14 +462,19 @@ theorem mem_apply {cfg : Cfg} {list : List Member} {rule : String} {count min ma
       · injection h with h; subst h; exact mem_takeLoop hc
     · split at h
       · cases h
-      · unfold applyMax at h
-        split at h
-        · injection h with h; subst h; exact mem_takeLoop hc
-        · split at h
-          · injection h with h; subst h; exact mem_flattenAll hc
+      · split at h
+        · cases h
+        · unfold applyMax at h
+          split at h
+          · injection h with h; subst h
+            split at hc
+            · exact mem_takeLoopPre hc
+            · exact mem_takeLoop hc
           · split at h
-            · injection h with h; subst h; simp at hc
-            · cases h
+            · injection h with h; subst h; exact mem_flattenAll hc
+            · split at h
+              · injection h with h; subst h; simp at hc
+              · cases h
 
 theorem mem_groupMembers {cands : List Cand} {g : String} {x : Cand} (h : x ∈ groupMembers cands g) : x ∈ cands := by
   unfold groupMembers at h
